@@ -657,6 +657,27 @@ fn seed_pindex_min() -> Vec<u8> {
     d
 }
 
+/// a well-formed patch index whose single block-2 entry uses key size `ks` (the entry is
+/// 3*ks+13 bytes long, so every size field is consistent and the entry decoder is reached)
+fn seed_pindex_ks(ks: u8) -> Vec<u8> {
+    let mut block = vec![];
+    block.extend_from_slice(&1u32.to_le_bytes());
+    block.push(ks);
+    block.extend(std::iter::repeat(0x5A).take(3 * ks as usize + 13));
+    let header_size = 14 + 4 + 8;
+    let total = header_size + block.len();
+    let mut d = vec![];
+    d.extend_from_slice(&(header_size as u32).to_le_bytes());
+    d.extend_from_slice(&1u32.to_le_bytes());
+    d.extend_from_slice(&(total as u32).to_le_bytes());
+    d.extend_from_slice(&0u16.to_le_bytes());
+    d.extend_from_slice(&1u32.to_le_bytes());
+    d.extend_from_slice(&2u32.to_le_bytes());
+    d.extend_from_slice(&(block.len() as u32).to_le_bytes());
+    d.extend_from_slice(&block);
+    d
+}
+
 fn seed_zbsdiff_min() -> Vec<u8> {
     use cascette_formats::zbsdiff::ZbsdiffBuilder;
     let old: Vec<u8> = (0..65536u32).map(|i| (i % 251) as u8).collect();
@@ -947,6 +968,9 @@ fn hand_seeds(c: &mut Ctx) -> Vec<(String, String)> {
     add(c, &["size"], "size_min", size_seed);
     // patch index
     add(c, &["pindex"], "pindex_min", seed_pindex_min());
+    for ks in [0u8, 1, 9, 15, 17, 32, 255] {
+        add(c, &["pindex"], &format!("pindex_ks{ks}"), seed_pindex_ks(ks));
+    }
     // zbsdiff
     add(c, &["zbsdiff", "zbsparse"], "zbs_min", seed_zbsdiff_min());
     // archive index: 28 zero bytes with a self-consistent footer shape is produced by splicing;
